@@ -675,6 +675,11 @@ func genWiCase(g *Rng, cfg WiCfg, k int, gidx int) WiCase {
 	if g.Chance(25) {
 		r.Headers = append(r.Headers, [2]string{"X-Multi", "second"})
 	}
+	if g.Chance(1) { // a large request header block
+		for i := 0; i < 3; i++ {
+			r.Headers = append(r.Headers, [2]string{"Cookie", fmt.Sprintf("s%d=%s", i, strings.Repeat("y", 4000+g.Intn(2000)))})
+		}
+	}
 	if g.Chance(40) && !hasPlug(cfg, "gzip") {
 		r.Headers = append(r.Headers, [2]string{"Accept-Encoding", []string{"gzip", "gzip, deflate, br", "identity", "br"}[g.Intn(4)]})
 	}
@@ -713,7 +718,8 @@ func genWiCase(g *Rng, cfg WiCfg, k int, gidx int) WiCase {
 			r.Headers = append(r.Headers, [2]string{"X-API-Key", p.Key + "x"})
 		}
 	}
-	if r.Method == "POST" || r.Method == "PUT" || r.Method == "PATCH" || (r.Method == "DELETE" && g.Chance(30)) {
+	// bodies also on methods that usually have none (the request gate of a plugin must not depend on the method)
+	if r.Method == "POST" || r.Method == "PUT" || r.Method == "PATCH" || (r.Method == "DELETE" && g.Chance(30)) || ((r.Method == "GET" || r.Method == "OPTIONS") && g.Chance(15)) {
 		r.Framing = []string{"cl", "cl", "chunked"}[g.Intn(3)]
 		r.BodyLen = []int{0, 1, 15, 16, 17, 63, 64, 65, 1000, 40000, 100000}[g.Intn(11)]
 	}
@@ -739,6 +745,15 @@ func genWiCase(g *Rng, cfg WiCfg, k int, gidx int) WiCase {
 	}
 	if g.Chance(20) {
 		s.Headers = append(s.Headers, [2]string{"X-Dup", "second"})
+	}
+	if g.Chance(1) { // a large header block (cookies, CSP): 9 .. 13 KiB, 40 KiB in the thorough tier
+		n := 3
+		if Tier() == "thorough" && g.Chance(30) {
+			n = 12
+		}
+		for i := 0; i < n; i++ {
+			s.Headers = append(s.Headers, [2]string{"Set-Cookie", fmt.Sprintf("c%d=%s; Path=/", i, strings.Repeat("x", 3000+g.Intn(1500)))})
+		}
 	}
 	if g.Chance(12) { // the backend sets an ID header of its own
 		s.Headers = append(s.Headers, [2]string{strings.TrimSpace(rh), "backend-chosen"})
@@ -786,6 +801,11 @@ func wiCorpus() []wiGroup {
 		mk(idcfg, "normal", WiReq{Method: "GET", Path: "/noae", Headers: [][2]string{xf(5)}}, WiScript{Status: 200, Headers: [][2]string{{"Content-Type", "application/json"}}, Segs: []int{300}}),
 		mk(idcfg, "normal", WiReq{Method: "POST", Path: "/up", Headers: [][2]string{xf(6)}, BodyLen: 70000, Framing: "chunked"}, WiScript{Status: 201, Segs: []int{2}}),
 		mk(idcfg, "normal", WiReq{Method: "HEAD", Path: "/h", Headers: [][2]string{xf(7)}}, WiScript{Status: 200, Headers: [][2]string{{"Content-Type", "text/plain"}}, Segs: []int{9}, CL: true}),
+		// header blocks well above 8 KiB in both directions
+		mk(idcfg, "normal", WiReq{Method: "GET", Path: "/cookies", Headers: [][2]string{xf(8), {"Cookie", "s=" + strings.Repeat("y", 12000)}}},
+			WiScript{Status: 201, Headers: [][2]string{{"Content-Type", "text/plain"}, {"Set-Cookie", "a=" + strings.Repeat("x", 4000)}, {"Set-Cookie", "b=" + strings.Repeat("x", 4000)}, {"Set-Cookie", "c=" + strings.Repeat("x", 4000)}, {"Content-Security-Policy", strings.Repeat("p", 9000)}}, Segs: []int{5}, CL: true}),
+		// a body on a method that usually has none, above and below a size limit elsewhere in the corpus
+		mk(idcfg, "normal", WiReq{Method: "GET", Path: "/getbody", Headers: [][2]string{xf(9)}, BodyLen: 17, Framing: "cl"}, WiScript{Status: 200, Segs: []int{3}}),
 	}}
 	lim := WiCfg{ReqID: true, Trace: true, Strategy: "round_robin", NBack: 1, Limit: true, Passive: true,
 		Chain: []WiPlug{{Name: "headers", Set: [][2]string{{"X-Order", "1"}}, ReqSet: [][2]string{{"X-Req-Order", "1"}}}, {Name: "custom-auth", Key: "k1"}, {Name: "size_limit", MaxReq: 16, MaxResp: 400000}, {Name: "headers", Set: [][2]string{{"X-Order", "2"}}, ReqSet: [][2]string{{"X-Req-Order", "2"}}}}}
@@ -794,6 +814,8 @@ func wiCorpus() []wiGroup {
 		mk(lim, "normal", WiReq{Method: "GET", Path: "/ok", Headers: [][2]string{xf(10), {"X-API-Key", "k1"}}}, ok),
 		mk(lim, "normal", WiReq{Method: "GET", Path: "/noauth", Headers: [][2]string{xf(11)}}, ok),
 		mk(lim, "normal", WiReq{Method: "POST", Path: "/big", Headers: [][2]string{xf(12), {"X-API-Key", "k1"}}, BodyLen: 17, Framing: "cl"}, ok),
+		mk(lim, "normal", WiReq{Method: "GET", Path: "/biggeT", Headers: [][2]string{xf(15), {"X-API-Key", "k1"}}, BodyLen: 17, Framing: "cl"}, ok),
+		mk(lim, "normal", WiReq{Method: "OPTIONS", Path: "/bigopt", Headers: [][2]string{xf(16), {"X-API-Key", "k1"}}, BodyLen: 4000, Framing: "cl"}, ok),
 		mk(lim, "limited", WiReq{Method: "GET", Path: "/lim", Headers: [][2]string{xf(13), {"X-API-Key", "k1"}, {"X-Request-ID", "mine"}}}, ok),
 		mk(lim, "ejected", WiReq{Method: "GET", Path: "/ej", Headers: [][2]string{xf(14), {"X-API-Key", "k1"}}}, ok),
 	}}
